@@ -116,7 +116,7 @@ impl DefaultInputTextPlugin {
 //@  rw R14 * custom
 //@  | ch\.to_lowercase\(\)
 //@  > v_lower(ch)
-//@  rw R13 3 custom
+//@  rw R13 * custom
 //@  | ch\.len_utf8\(\)
 //@  > char_len_utf8(ch)
 //@  ret r
